@@ -34,6 +34,14 @@ def ma_dimer(s, k):
     return k * s * s
 
 
+def ma_rev(s, p, kf, kr):
+    return kf * s - kr * p
+
+
+def ma_inhib(s, p, k):
+    return k * s - k * s * p
+
+
 NETWORKS = {
     # name: (variables with labels, reaction (stoich, args, fn), extra)
     "uni": dict(vars={"A": 2, "B": 2}, rxn=({"A": -1, "B": 1}, ["A", "k"], ma1)),
@@ -44,6 +52,7 @@ NETWORKS = {
     "efflux": dict(vars={"A": 2}, rxn=({"A": -1}, ["A", "k"], ma1)),
     "cofactor": dict(vars={"A": 2, "X": 0, "B": 2}, rxn=({"A": -1, "X": -1, "B": 1}, ["A", "X", "k"], ma2)),
     "dimer": dict(vars={"A": 1, "B": 2}, rxn=({"A": -2, "B": 1}, ["A", "k"], ma_dimer)),
+    "reversible": dict(vars={"A": 2, "B": 2}, rxn=({"A": -1, "B": 1}, ["A", "B", "k", "kz"], ma_rev)),
     "uni3": dict(vars={"A": 3, "B": 3}, rxn=({"A": -1, "B": 1}, ["A", "k"], ma1)),
     "merge21": dict(vars={"Q": 2, "P": 1, "R": 3}, rxn=({"Q": -1, "P": -1, "R": 1}, ["Q", "P", "k"], ma2)),
     "split21": dict(vars={"R": 3, "T": 2, "S": 1}, rxn=({"R": -1, "T": 1, "S": 1}, ["R", "k"], ma1)),
@@ -211,11 +220,13 @@ def maps_for(net, tier):
 
 def scenarios(tier, seed):
     scs = []
-    nets = ["uni", "uni12", "merge", "split", "influx", "efflux", "cofactor"] + (
+    nets = ["uni", "uni12", "merge", "split", "influx", "efflux", "cofactor", "reversible"] + (
         ["uni3", "merge21", "split21", "influx3", "gain"] if tier != "quick" else [])
     for net in nets:
         maps, tsl = maps_for(net, tier)
         for m in maps:
+            if net == "reversible" and sorted(m) != list(range(len(m))):
+                continue  # a rate law that reads its product only makes sense for a one-to-one atom map
             scs.append(Iso(net, m))
         # a map shorter than the substrates' atoms (every shorter length, incl. the empty map)
         for n in range(tsl):
